@@ -161,7 +161,7 @@ def run_case(case: dict, seed: int) -> dict:
     logging.disable(logging.CRITICAL)
     root = fresh_root("os-")
     try:
-        uni = Universe(FILES, DIRS, seed=seed + case.get("useed", 0))
+        uni = Universe(FILES, DIRS, seed=seed + case.get("useed", 0), pads=case.get("pads", 0))
         w = World(root, uni, STORES, idx_store="remote")
         init = {s: {x: st for x, st in objs.items() if st != "none"} for s, objs in case["init"].items()}
         w.setup(init)
@@ -201,14 +201,14 @@ def execute(cases: list[dict], seed: int, procs: int = 16) -> list[dict]:
 # --------------------------------------------------------------------------------------
 # case generation
 # --------------------------------------------------------------------------------------
-def tlc_generate() -> dict:
-    """Let TLC evaluate the case sets of GenObjectStore.tla."""
+def tlc_generate(what: str = "xfer") -> dict:
+    """Let TLC evaluate the case sets of GenObjectStore.tla (selected by `what`)."""
     d = tlc.scratch_dir("gen-")
     out = os.path.join(d, "gen.json")
     try:
         c = validate.cfg_with_known("GenObjectStore.cfg")
         tlc.sany("GenObjectStore.tla")
-        res = tlc.run_tlc("GenObjectStore", c, workers=1, env={"GEN_OUT": out}, coverage=False)
+        res = tlc.run_tlc("GenObjectStore", c, workers=1, env={"GEN_OUT": out, "GEN_WHAT": what}, coverage=False)
         shutil.rmtree(os.path.dirname(c), ignore_errors=True)
         if not os.path.exists(out):
             raise tlc.MachineryError(f"case generation failed:\n{res.stdout[-2000:]}")
@@ -233,33 +233,97 @@ def transfer_cases(gen: dict, rng: random.Random, quick: bool) -> list[dict]:
         for c in lst:
             first = xfer_op(c)
             retry = xfer_op(c, F=[])
-            cases.append({"init": c["init"], "ops": [first, retry], "kind": kind})
+            useed = len(cases) % 3  # vary the concrete contents, hence the code's own iteration orders
+            cases.append({"init": c["init"], "ops": [first, retry], "kind": kind, "useed": useed})
             nmax = len(c["req"]) + 2
             ks = range(nmax) if (not quick or rng.random() < 0.34) else []
             for k in ks:
-                cases.append({"init": c["init"], "ops": [xfer_op(c, abort=k), retry], "kind": kind + "-abort"})
+                cases.append({"init": c["init"], "ops": [xfer_op(c, abort=k), retry], "kind": kind + "-abort",
+                              "useed": useed})
+    return cases
+
+
+def sim_cases(cfg: str, num: int, depth: int, seed: int) -> list[dict]:
+    """Random behaviours of the design spec (tlc -simulate) reduced to their operation-level
+    actions: the internal steps of a transfer (Pick/Put/TransferEnd) are the code's own business
+    and are checked by trace validation; an Abort becomes `kill before the k-th upload`."""
+    from ..tlaparse import to_json
+
+    c = validate.cfg_with_known(cfg)
+    try:
+        behs = tlc.simulate("MC_ObjectStore", c, num=num, depth=depth, seed=seed)
+    finally:
+        shutil.rmtree(os.path.dirname(c), ignore_errors=True)
+    cases = []
+    for beh in behs:
+        init = to_json(beh[0][1]["store"])
+        ops, cur, nput = [], None, 0
+        for _label, st in beh[1:]:
+            a = to_json(st["act"])
+            k = a["op"]
+            if k == "TransferBegin":
+                cur = {"op": "Transfer", "src": a["src"], "dst": a["dst"], "req": a["req"], "shallow": a["shallow"],
+                       "idx": a["idx"], "F": a["F"], "verify": a["verify"]}
+                ops.append(cur)
+                nput = 0
+            elif k == "Put":
+                nput += 1
+            elif k == "Abort":
+                if cur is not None:
+                    cur["abort"] = nput
+                cur = None
+            elif k in ("Pick", "TransferEnd"):
+                pass
+            else:
+                a2 = dict(a)
+                ops.append(a2)
+        if ops:
+            cases.append({"init": init, "ops": ops, "kind": "sim:" + cfg})
     return cases
 
 
 # --------------------------------------------------------------------------------------
 # validation + classification
 # --------------------------------------------------------------------------------------
-def universe_doc():
-    u = Universe(FILES, DIRS, seed=0).describe()
+def universe_doc(pads=0):
+    u = Universe(FILES, DIRS, seed=0, pads=pads).describe()
     u.update({"stores": sorted(STORES), "class": STORES, "idx": "remote"})
     return u
+
+
+def many_oids_cases(rng: random.Random, n: int) -> list[dict]:
+    """Generic store padded with 12 objects under prefix 00 (estimated size 3072): a query of 2-3 ids
+    goes object by object, a query of everything traverses the store."""
+    pads = [f"p{i + 1}" for i in range(12)]
+    cases = []
+    for _ in range(n):
+        have = set(pads) | {x for x in FILES + list(DIRS) if rng.random() < 0.5}
+        init = {"remote": {x: "ok_u" for x in have}, "cache": {}}
+        small = rng.sample(FILES + list(DIRS) + pads[:3], rng.choice([2, 3]))
+        big = FILES + list(DIRS) + pads
+        ops = [{"op": "Status", "s": "remote", "ids": small, "shallow": True, "idx": False},
+               {"op": "Status", "s": "remote", "ids": big, "shallow": True, "idx": False},
+               {"op": "CompareStatus", "a": "cache", "b": "remote", "ids": small, "shallow": True}]
+        cases.append({"init": init, "ops": ops, "kind": "many-oids", "pads": 12})
+    return cases
 
 
 def validate_and_classify(run: core.Run, traces: list[dict], shards=12):
     if not traces:
         raise tlc.MachineryError("no traces to validate")
+    padded = [t for t in traces if t["case"].get("pads")]
+    if padded and len(padded) != len(traces):
+        validate_and_classify(run, [t for t in traces if not t["case"].get("pads")], shards)
+        validate_and_classify(run, padded, 2)
+        return
+    npads = traces[0]["case"].get("pads", 0)
     doc_traces = [{"init": t["init"], "events": t["events"]} for t in traces]
     # shard manually: each shard is a full document with the universe
     n = len(doc_traces)
     shards = max(1, min(shards, n))
     import concurrent.futures as cf
 
-    uni = universe_doc()
+    uni = universe_doc(npads)
     tdir = tlc.SPECS / "trace"
     tlc.sany(str(tdir / "ObjectStoreTrace.tla"))
     cfg = validate.cfg_with_known(tdir / "ObjectStoreTrace.cfg")
@@ -319,28 +383,188 @@ def design_xfer(run: core.Run):
     return res
 
 
+def design_ops(run: core.Run):
+    return validate.run_design(
+        run, "MC_ObjectStore", "ObjectStore_ops_quick.cfg", workers=16,
+        required_actions=["Status", "CompareStatus", "Gc", "Check"],
+        constants={"Files": FILES, "Dirs": DIRS, "Stores": STORES,
+                   "init": "one store with every mix of absent/intact/corrupt objects, the other empty or full",
+                   "steps": "one public call from each initial state (action property StepPropsHold)"})
+
+
+def _sample(lst, n, rng):
+    return lst if len(lst) <= n else rng.sample(lst, n)
+
+
+def _finish(run, traces, rule, assumptions):
+    validate_and_classify(run, traces)
+    for t in traces[:: max(1, len(traces) // 3)][:3]:
+        run.add_sample({"case": t["case"], "events": [e["act"] for e in t["events"]][:12]})
+    run.extra["rule"] = rule
+    run.assumptions += assumptions
+    return run.finish()
+
+
+def _replay_cases(replay):
+    return [replay["replay"]["case"]]
+
+
 def check_C04(run: core.Run, replay=None):
     core.assert_repo_tree()
     quick = run.tier == "quick"
     rng = random.Random(run.seed)
     if replay:
-        cases = [replay["replay"]["case"]]
+        cases = _replay_cases(replay)
     else:
         design_xfer(run)
-        gen = tlc_generate()
+        gen = tlc_generate("xfer")
         cases = transfer_cases(gen, rng, quick)
+        cases += sim_cases("ObjectStore_sim_xfer.cfg", 150 if quick else 1500, 24, run.seed + 1)
         run.extra["generated_cases"] = {k: len(v) for k, v in gen.items()}
     traces = execute(cases, run.seed)
-    validate_and_classify(run, traces)
-    for t in traces[:: max(1, len(traces) // 3)][:3]:
-        run.add_sample({"case": t["case"], "events": [e["act"] for e in t["events"]]})
-    run.extra["rule"] = ("every TLC-generated (initial stores, closed request, shallow/expanded, index on/off, failing "
-                         "subset <= 2) transfer, its fault-free retry, and the same killed before its k-th upload; "
-                         "C04 evaluated by TLC on the store observed after every single upload")
-    run.assumptions += ["uploads fail atomically (an injected failure leaves nothing at the object path)",
-                        "abort = exception raised from the file-system call (real process kills are C15's)",
-                        "destination not modified externally during the transfer"]
-    return run.finish()
+    return _finish(run, traces,
+                   "every TLC-generated (initial stores, closed request, shallow/expanded, index on/off, failing subset "
+                   "<= 2) transfer, its fault-free retry, and the same killed before its k-th upload; plus random "
+                   "multi-transfer behaviours (tlc -simulate); C04 evaluated by TLC on the store observed after every "
+                   "single upload",
+                   ["uploads fail atomically (an injected failure leaves nothing at the object path)",
+                    "abort = exception raised from the file-system call (real process kills are C15's)",
+                    "destination not modified externally during the transfer"])
+
+
+def check_C11(run: core.Run, replay=None):
+    core.assert_repo_tree()
+    quick = run.tier == "quick"
+    rng = random.Random(run.seed)
+    if replay:
+        cases = _replay_cases(replay)
+    else:
+        design_xfer(run)
+        gen = tlc_generate("c11quick" if quick else "c11")
+        gx = tlc_generate("xfer")
+        cases = []
+        for c in _sample(gen["c11"], 1500 if quick else 10**9, rng):
+            cases.append({"init": c["init"], "ops": [xfer_op(c)], "kind": "c11", "useed": len(cases) % 3})
+        for c in _sample(gen["verify"], 500 if quick else 10**9, rng):
+            cases.append({"init": c["init"], "ops": [xfer_op(c, verify=c["verify"])], "kind": "verify",
+                          "useed": len(cases) % 3})
+        for c in gx["push"] + gx["fetch"]:
+            cases.append({"init": c["init"], "ops": [xfer_op(c)], "kind": "xfer", "useed": len(cases) % 3})
+        cases += sim_cases("ObjectStore_sim_xfer.cfg", 100 if quick else 1000, 24, run.seed + 2)
+        run.extra["generated_cases"] = {**{k: len(v) for k, v in gen.items()}, **{k: len(v) for k, v in gx.items()}}
+    traces = execute(cases, run.seed)
+    return _finish(run, traces,
+                   "TLC-generated transfers: source holding any subset (objects missing on both sides), destination any "
+                   "closed subset, any request (closed or not), <= 1 failing upload; corrupt generic sources fetched "
+                   "with and without verify; the C04 case set; random behaviours. C11 evaluated by TLC on result + "
+                   "re-hashed stores at TransferEnd, on every upload (nothing re-sent, source untouched)",
+                   ["every requested directory can be loaded from the source, otherwise the transfer refuses "
+                    "(FileNotFoundError) before moving anything - a refusal, not a result",
+                    "source 'never modified' is read as: every intact object keeps its bytes and no object appears; "
+                    "dropping a corrupt unprotected object during a local existence query is demanded by C07"])
+
+
+def check_C12(run: core.Run, replay=None):
+    core.assert_repo_tree()
+    quick = run.tier == "quick"
+    rng = random.Random(run.seed)
+    if replay:
+        cases = _replay_cases(replay)
+    else:
+        design_ops(run)
+        design_xfer(run)
+        gen = tlc_generate("status")
+        cases = []
+        for c in _sample(gen["status"], 1500 if quick else 10**9, rng):
+            ops = [{"op": "Status", "s": c["s"], "ids": c["ids"], "shallow": c["shallow"], "idx": False}]
+            cases.append({"init": c["init"], "ops": ops, "kind": "status"})
+        cases += sim_cases("ObjectStore_sim_idx.cfg", 400 if quick else 4000, 22, run.seed + 3)
+        cases += sim_cases("ObjectStore_sim_status.cfg", 250 if quick else 2500, 8, run.seed + 4)
+        cases += many_oids_cases(rng, 6 if quick else 40)
+        run.extra["generated_cases"] = {k: len(v) for k, v in gen.items()}
+    traces = execute(cases, run.seed)
+    return _finish(run, traces,
+                   "status() on every TLC-generated (store class, mix of absent/intact/corrupt objects, query, "
+                   "shallow/expanded); compare_status and indexed status inside random behaviours of transfers (also "
+                   "failed / aborted ones), external deletions and status queries sharing one remote index; the base "
+                   "store's traversal strategy forced with a store of many objects",
+                   ["memory-protocol staging stores are excluded (status.py answers 'exists' for them by design)",
+                    "the index invariant is evaluated after library operations on stores without external deletion/gc"])
+
+
+def check_C06(run: core.Run, replay=None):
+    core.assert_repo_tree()
+    quick = run.tier == "quick"
+    rng = random.Random(run.seed)
+    if replay:
+        cases = _replay_cases(replay)
+    else:
+        design_ops(run)
+        gen = tlc_generate("gc")
+        cases = []
+        for c in _sample(gen["gc"], 2500 if quick else 10**9, rng):
+            op = {"op": "Gc", "s": c["s"], "used": c["used"], "foreign": c["foreign"], "shallow": c["shallow"],
+                  "dry": c["dry"], "ro": c["ro"]}
+            cases.append({"init": c["init"], "ops": [op], "kind": "gc"})
+        cases += sim_cases("ObjectStore_sim_gc.cfg", 150 if quick else 1500, 10, run.seed + 5)
+        run.extra["generated_cases"] = {k: len(v) for k, v in gen.items()}
+    traces = execute(cases, run.seed)
+    return _finish(run, traces,
+                   "gc() on TLC-generated (store class, store contents as any subset, used set as any subset incl. ids "
+                   "absent from the store, ids under a foreign hash name, shallow/expanding, dry/real, read-only handle); "
+                   "plus gc inside random behaviours of adds and transfers",
+                   ["when directories are to be expanded and a used directory object is absent from the store, gc "
+                    "raises and removes nothing: accepted as a refusal (the files it protects are unknowable)"])
+
+
+def check_C07(run: core.Run, replay=None):
+    core.assert_repo_tree()
+    quick = run.tier == "quick"
+    rng = random.Random(run.seed)
+    if replay:
+        cases = _replay_cases(replay)
+    else:
+        design_ops(run)
+        gen = tlc_generate("status")
+        gv = tlc_generate("c11quick")
+        cases = []
+        for c in gen["check"]:
+            cases.append({"init": c["init"], "ops": [{"op": "Check", "s": c["s"], "o": c["o"]}], "kind": "check"})
+        bad = [c for c in gen["status"] if any(v == "bad_u" for v in c["init"][c["s"]].values())]
+        for c in _sample(bad, 1200 if quick else 10**9, rng):
+            ops = [{"op": "Status", "s": c["s"], "ids": c["ids"], "shallow": c["shallow"], "idx": False},
+                   {"op": "Check", "s": c["s"], "o": sorted(c["ids"])[0]}]
+            cases.append({"init": c["init"], "ops": ops, "kind": "status+check"})
+        for c in _sample(gv["verify"], 600 if quick else 10**9, rng):
+            cases.append({"init": c["init"], "ops": [xfer_op(c, verify=c["verify"])], "kind": "verify"})
+        cases += sim_cases("ObjectStore_sim.cfg", 300 if quick else 3000, 14, run.seed + 6)
+        run.extra["generated_cases"] = {"check": len(gen["check"]), "status_with_corrupt": len(bad), "verify": len(gv["verify"])}
+    traces = execute(cases, run.seed)
+    return _finish(run, traces,
+                   "check()/status() on every TLC-generated store mix containing corrupt unprotected objects (both store "
+                   "classes), verify-configured transfers from corrupt sources, random behaviours with tampering; "
+                   "tampering rewrites bytes after chmod u+w and sets a distinguishable mtime explicitly",
+                   ["a corrupt object that is also mode 0o444 is trusted by design (outside the statement: 'not write-protected')",
+                    "checkout of a corrupt object is decided by the Checkout module (C05/C10 harness), not here"])
+
+
+def check_C01(run: core.Run, replay=None):
+    core.assert_repo_tree()
+    quick = run.tier == "quick"
+    if replay:
+        cases = _replay_cases(replay)
+    else:
+        design_xfer(run)
+        cases = sim_cases("ObjectStore_sim_honest.cfg", 500 if quick else 5000, 20, run.seed + 7)
+        gx = tlc_generate("xfer")
+        for c in gx["push"][::3] + gx["fetch"][::3]:
+            cases.append({"init": c["init"], "ops": [xfer_op(c), xfer_op(c, F=[])], "kind": "xfer", "useed": len(cases) % 3})
+    traces = execute(cases, run.seed)
+    return _finish(run, traces,
+                   "random behaviours (tlc -simulate) of add / transfer (with failures, aborts) / gc / status / check "
+                   "over a local and a generic store; after every step every object file of every store is re-hashed "
+                   "with hashlib, .dir objects re-encoded canonically, modes read with lstat",
+                   ["hash primitives injective on the data used", "no workspace edit between hashing and adding"])
 
 
 check = check_C04
